@@ -354,6 +354,8 @@ func main() {
 	var batch bytes.Buffer
 	var mains []string
 	discarded := 0
+	timeouts := 0
+	const maxTimeouts = 12
 	totalCounts := map[string]int{}
 	nativeNames := []string(nil)
 
@@ -460,10 +462,15 @@ func main() {
 					at := mkArgs(r, f.params)
 					tr.entries = nil
 					vl0 := []int{0, 3, 1, 2, 7}[(len(po.Calls)+t)%5]
-					res := callWithTimeout(evalEnv, compiled[fi], f.res, at, vl0, 2*time.Second)
+					if timeouts >= maxTimeouts {
+						break // enough non-terminating calls were observed; every one keeps a CPU busy
+					}
+					res := callWithTimeout(evalEnv, compiled[fi], f.res, at, vl0, 300*time.Millisecond)
 					if res == "T" {
 						// the abandoned goroutine still owns evalEnv
 						evalEnv = env.GetEvalEnv()
+						timeouts++
+						nt = t + 1 // no further tuples for this function
 					}
 					ci := len(po.Calls)
 					po.Calls = append(po.Calls, callObs{F: fi, ArgsGo: at.goText, ArgsCoq: at.coqText, Res: res, Trace: coqList(tr.entries), VL0: vl0})
@@ -552,7 +559,7 @@ func main() {
 	}
 	sort.Strings(keys)
 	enc.Encode(map[string]interface{}{"k": "summary", "programs": len(progs), "discarded_illtyped": discarded,
-		"constructs": totalCounts, "natives": nativeNames, "oracle_err": oracleErr, "max_locals": quasigo.VerifMaxFuncLocals})
+		"constructs": totalCounts, "timeouts": timeouts, "natives": nativeNames, "oracle_err": oracleErr, "max_locals": quasigo.VerifMaxFuncLocals})
 }
 
 // safeCompile turns a crash of the compiler (a panic that is not a compile error) into an error that
